@@ -1876,7 +1876,7 @@ theorem rframe_ptr (s : RefHeap) (rop : ROp) (i : Nat) (hi : i < s.ptr.length) (
     · rfl
   | op o =>
     simp only [ROp.rebinds] at hreb
-    simp only [rstep]
+    simp only [rstep, RefHeap.ptrAfter]
     split
     · rename_i d _ hd _
       rw [hd] at hreb
@@ -1940,7 +1940,7 @@ theorem ralias_shared (s : RefHeap) (dst h : Nat) (t : Table) (hg : s.get h = so
   · intro t' ht'
     have : s2 = ⟨RefHeap.bindPtr s.ptr dst c, s.cells.set c t'⟩ := by
       rw [e2]
-      simp only [rstep, Op.mapHandles, Op.dst?, Op.aliasOf, hcellOf, step, hcell, ht']
+      simp only [rstep, RefHeap.ptrAfter, Op.mapHandles, Op.dst?, Op.aliasOf, hcellOf, step, hcell, ht']
     rw [this]
     constructor
     · rw [RefHeap.get_of_ptr hpd]; simp [hc]
@@ -1948,7 +1948,7 @@ theorem ralias_shared (s : RefHeap) (dst h : Nat) (t : Table) (hg : s.get h = so
   · intro e he
     have : s2 = ⟨RefHeap.bindPtr s.ptr dst c, s.cells⟩ := by
       rw [e2]
-      simp only [rstep, Op.mapHandles, Op.dst?, Op.aliasOf, hcellOf, step, hcell, he]
+      simp only [rstep, RefHeap.ptrAfter, Op.mapHandles, Op.dst?, Op.aliasOf, hcellOf, step, hcell, he]
     rw [this]
     exact ⟨by rw [RefHeap.get_of_ptr hpd]; exact hcell, by rw [RefHeap.get_of_ptr hph]; exact hcell⟩
 
@@ -1982,7 +1982,7 @@ theorem rwf_step (s : RefHeap) (rop : ROp) (hs : s.WF) : (rstep s rop).1.WF := b
   | op o =>
     have hge := step_length_ge s.cells (o.mapHandles s.cellOf s.cells.length)
     intro x hx
-    simp only [rstep] at hx ⊢
+    simp only [rstep, RefHeap.ptrAfter] at hx ⊢
     split at hx
     · rename_i _ _ d hd hunit
       have hfresh := step_unit_fresh s.cells o d hd s.cellOf hunit
